@@ -20,6 +20,11 @@ CHECKS = {
          "The model shows that with the slot / signature comparison no absent key is answered with another object for any alias relation (and that without it TLC finds the wrong-object reply); on the real server every skipped slot, keys of unloaded epochs, random signatures and absent slots / signatures whose 24-bit in-bucket hash equals a stored one are requested with 1..3 epochs loaded over JSON-RPC and gRPC; TLC judges that each answer is not-found / unavailable.",
          "sig-exists (64-bit) treated as exact; aliasing addresses are searched on an epoch with 4 000 distinct addresses (the pubkey index has 100 buckets).",
          "DESIGN.md section 7, C03", "rpc"),
+ "C08": ("model_checking",
+         "TLC enumeration of the request grammar (RpcGrammar.tla / GrpcGrammar.tla: cross product of finite dimensions, totality of the decision table); every class sent to the real handler / gRPC methods in a child process; TLC trace judge (Trace_RpcGrammar.tla)",
+         "6 150 JSON-RPC / HTTP request classes (method, path, body kind, method name, params shape, first argument of every JSON type incl. huge / negative / fractional numbers and bad base58, options object shapes, id shapes) and 45 792 gRPC message classes (five RPCs and the bidirectional Get stream, every optional field absent / present, malformed and empty account strings, short / long signatures, end < start, index on / off) x {0,1,2} loaded epochs are enumerated by TLC; quick sends all JSON-RPC classes, all non-StreamTransactions gRPC classes and 8 000 sampled StreamTransactions classes (thorough: all) to the real code; a panic, a process death (panic in a spawned goroutine), a hang or an unanswered canary request is a violation.",
+         "Structured request shapes only: coverage-guided byte mutation is outside this technique; requests go through an in-memory fasthttp context / direct method calls.",
+         "DESIGN.md section 7, C08", "rpcgrammar"),
  "C09": ("model_checking",
          "lock programs recorded from the current code; TLC exhaustive check of EpochSet.tla (Go RWMutex semantics x recorded programs); every model deadlock forced on the real MultiEpoch through mutex gates; stress run; TLC trace judge (Trace_EpochSet.tla)",
          "The per-goroutine sequences of RLock / RUnlock / Lock / Unlock of 25 operations (all JSON-RPC and gRPC methods, REST api, listings, reload operations) are recorded from the current tree; TLC explores every multiset of 3 recorded programs with a writer under every interleaving with writer-preferring RWMutex semantics (exclusion, balance) and reports every deadlock state with its schedule; each schedule is forced on the real goroutines (a hang with all participants blocked in sync.RWMutex is the violation); a seeded stress run checks that answers for stable epochs equal the idle answers and that listings are sorted, duplicate-free and complete.",
@@ -67,6 +72,8 @@ CHECKS = {
          "DESIGN.md section 7, C06", "gsfa"),
 }
 ENGINES = [
+ {"name": "rpcgrammar", "path": "spec/RpcGrammar.tla", "serves_properties": ["C08"],
+  "kind_free_text": "TLA+ RpcGrammar/GrpcGrammar + Trace_RpcGrammar; Go harness/main/c08_test.go (child-process isolation)"},
  {"name": "epochset", "path": "spec/EpochSet.tla", "serves_properties": ["C09"],
   "kind_free_text": "TLA+ EpochSet (RWMutex semantics + recorded lock programs) + Trace_EpochSet; Go harness/main/c09_test.go, c09_mutex.go; go/ast rewrite of multiepoch.go"},
  {"name": "stream", "path": "spec/Stream.tla", "serves_properties": ["C19"],
